@@ -72,6 +72,7 @@ func (t *tr) lookupOutParam(callee string) (OutParam, bool) {
 
 type FuncSpec struct {
 	Auto      bool              // inferred spec of a helper found by autofollow.go (emitted as `@[simp] def`)
+	AutoOwn   bool              // a helper that autofollow.go has already emitted into ANOTHER namespace (a second model of the same Go function) is emitted into this group's namespace as well
 	File      string            // path relative to repo root
 	Name      string            // Go name, "Recv.Name" for methods
 	Lean      string            // Lean definition name
